@@ -2,6 +2,7 @@
 From Cctp Require Import Lib.Bytes Lib.SMap Lib.Bech32.
 From Cctp Require Import Model.State Model.Ledger Model.Handlers Model.Chain.
 From Cctp Require Import Spec.Roles Spec.Lifecycle Proofs.MonadFacts Proofs.AdminFacts Proofs.LifecycleFacts.
+From Cctp Require Import Gen.GoH_UpdateOwner Gen.GoH_AcceptOwner Gen.GoH_UpdateAttesterManager Gen.GoH_UpdatePauser Gen.GoH_UpdateTokenController.
 
 (* Every transaction of every type, by every submitter, accepted or rejected, moves the five role slots
    exactly as the automaton of Spec/Lifecycle.v says: update-owner by the owner with a valid address
@@ -52,9 +53,19 @@ Theorem C11_slots_change_only_by_owner_update_to_valid_address : forall valid r 
    exists from new, t = UpdateOwner from new /\ r_owner r = Some from /\ valid new = true /\ r_pending r' = Some new).
 Proof. exact slots_only_by_owner_update. Qed.
 
+(* The five role handlers as translated from the Go source are, as functions of the request and the state, the model handlers the lifecycle theorems are about (go_X_ok: forall e request h, eq_or_unmodelled (go_X e request h) (handler e (X request) h): same result and same state wherever the model gives a verdict at all, i.e. except on denominations outside the character set the model folds; for the two helpers the right-hand side is send_message / deposit_for_burn). The statement is about the Gallina program that tools/goextract TRANSLATED from the Go source of /repo on this run (Gen/GoH_*.v, Gen/GoF_*.v; meaning of the Go constructs: Gen/GoSem.v). For a function the translator could not read the conjunct is True (Gen/<file> names the reason, the evidence lists it) and the tie for it is the differential execution alone. *)
+Theorem C11_go_role_handlers_are_the_model :
+  go_UpdateOwner_ok /\
+  go_AcceptOwner_ok /\
+  go_UpdateAttesterManager_ok /\
+  go_UpdatePauser_ok /\
+  go_UpdateTokenController_ok.
+Proof. split; [exact go_UpdateOwner_ok_proof|]. split; [exact go_AcceptOwner_ok_proof|]. split; [exact go_UpdateAttesterManager_ok_proof|]. split; [exact go_UpdatePauser_ok_proof|]. exact go_UpdateTokenController_ok_proof. Qed.
+
 Print Assumptions C11_roles_refine_lifecycle.
 Print Assumptions C11_roles_refine_lifecycle_history.
 Print Assumptions C11_superseded_nominee_cannot_accept.
 Print Assumptions C11_acceptance_cannot_be_replayed.
 Print Assumptions C11_owner_changes_only_by_acceptance.
 Print Assumptions C11_slots_change_only_by_owner_update_to_valid_address.
+Print Assumptions C11_go_role_handlers_are_the_model.
